@@ -112,6 +112,11 @@ type Store struct {
 	// FaultKind selects the error value injected i/o faults carry (index into faultKinds; 0 = plain)
 	FaultKind int
 
+	// CancelAt: when the CancelAt-th read open arrives, Cancel() is called (the request's context is cancelled) - and the
+	// block is served all the same, as a store that does not look at contexts does
+	CancelAt int
+	Cancel   func()
+
 	// work budget (C13): once more than LoadBudget reads were requested every further read fails
 	LoadBudget     int
 	BudgetExceeded bool
@@ -170,6 +175,9 @@ func (s *Store) openRead(_ linking.LinkContext, l datamodel.Link) (io.Reader, er
 	if s.LoadBudget > 0 && len(s.Reads) > s.LoadBudget {
 		s.BudgetExceeded = true
 		return nil, &ioFault{what: "load budget exceeded"}
+	}
+	if s.CancelAt != 0 && len(s.Reads) == s.CancelAt && s.Cancel != nil {
+		s.Cancel()
 	}
 	if s.FailReadAt != 0 && len(s.Reads) == s.FailReadAt {
 		return nil, s.fault(fmt.Sprintf("read #%d %s", s.FailReadAt, c))
